@@ -12,12 +12,15 @@ own `set_quiet` / `set_verbosity` afterwards.  `section.write_line(text, flags)`
   recorded (`add_content` is not reached), no row is counted, nothing reaches the stream;
 * on an output without ANSI support the call falls through to `Output.write(text, flags)`: the same gate.
 
-Operations without flags (`overwrite`, `clear`, `clear(n)`) on a section that is QUIET: every stream
-write they make goes through `Output.write` and is gated (C10: a quiet output writes nothing), the
-bookkeeping of `clear` is done all the same (`quietSecs`).  On a quiet section that holds nothing this is
-no change at all; on one that still shows lines the screen and the contents part company - histories
-free of that are `calmG`, and for them a gated history IS the indented history without the suppressed
-calls (`gflat`; `Props.C15.gate_simulates`).
+Operations without flags (`overwrite`, `clear`, `clear(n)`, `write_line(text)`) ask the same gate with
+`flags = None` before they touch anything: `SectionOutput.clear` returns `if not self._may_write(None)`
+(D41 repaired), the `write_line` of `overwrite` is an ordinary suppressed write.  So on a QUIET section
+they are no operation at all - what it shows stays where it is, and what it holds stays what it shows.
+A gated history therefore IS the indented history without the suppressed calls (`gflat`;
+`Props.C15.gate_simulates`, no hypothesis).
+
+`quietSecs` is the rule BEFORE the repair of D41 (the bookkeeping of `clear` was done although every
+stream write was gated); kept for the counterexamples in Props/C15.
 -/
 namespace Clikit.Section
 open Clikit.Term Clikit.Gen
@@ -50,9 +53,9 @@ def cfgOf (cfg : List GCfg) (i : Nat) : GCfg := cfg.getD i { quiet := false, ver
 def passes (cfg : List GCfg) (i : Nat) (flags : Option Nat) : Bool :=
   mayWrite (cfgOf cfg i).quiet (cfgOf cfg i).verbosity flags
 
-/-- The sections after an operation without flags on a QUIET section of an ANSI output: `clear` drops what
-it is asked to drop and corrects its row counter, the cursor codes and the text of `overwrite` stay in the
-gate. -/
+/-- The rule BEFORE the repair of D41: the sections after an operation without flags on a QUIET section of
+an ANSI output - `clear` dropped what it was asked to drop and corrected its row counter, while the cursor
+codes and the text of `overwrite` stayed in the gate. -/
 def quietSecs (w : Nat) (secs : List Sec) : Op → List Sec
   | .clear i => (modify secs i (fun a s => clearSec w a s 0)).1
   | .clearN i n => (modify secs i (fun a s => clearSec w a s n)).1
@@ -71,11 +74,10 @@ def stepG (ansi : Bool) (w : Nat) (g : GState) : GOp → GState × List Cmd
       ({ g with st := r.1 }, r.2)
     else (g, [])
   | .op o =>
-    if (cfgOf g.cfg (target o)).quiet then
-      ({ g with st := { g.st with secs := if ansi then quietSecs w g.st.secs o else g.st.secs } }, [])
-    else
+    if passes g.cfg (target o) none then
       let r := stepIO ansi w g.st (.op o)
       ({ g with st := r.1 }, r.2)
+    else (g, [])
 
 def runG (ansi : Bool) (w : Nat) : GState → List GOp → GState × List Cmd
   | g, [] => (g, [])
@@ -101,29 +103,6 @@ def gflat : List GCfg → List GOp → List IOp
   | cfg, .write i ls f :: r =>
     if passes cfg i f then .op (.write i ls) :: gflat cfg r else gflat cfg r
   | cfg, .op o :: r =>
-    if (cfgOf cfg (target o)).quiet then gflat cfg r else .op o :: gflat cfg r
-
-/-- Does section `i` hold nothing (also: there is no section `i`)? -/
-def holdsNothing (secs : List Sec) (i : Nat) : Bool :=
-  match locate secs i with
-  | some (_, s, _) => s.content.isEmpty
-  | none => true
-
-/-- The operations that drop content (a `write` on a quiet section is simply suppressed). -/
-def clears : Op → Bool
-  | .overwrite _ _ => true
-  | .clear _ => true
-  | .clearN _ _ => true
-  | _ => false
-
-/-- A history is CALM when no `overwrite` / `clear` / `clear(n)` is applied to a section while it is quiet
-and still holds lines (for such a call C10 demands that nothing is written and C15 that the screen
-changes). -/
-def calmG (ansi : Bool) (w : Nat) : GState → List GOp → Bool
-  | _, [] => true
-  | g, op :: r =>
-    (match op with
-     | .op o => !(cfgOf g.cfg (target o)).quiet || !(clears o) || holdsNothing g.st.secs (target o)
-     | _ => true) && calmG ansi w (stepG ansi w g op).1 r
+    if passes cfg (target o) none then .op o :: gflat cfg r else gflat cfg r
 
 end Clikit.Section
